@@ -778,6 +778,7 @@ class Interp:
                 if m is not None and not self.st.ghost.get("$in_init"):
                     self.call_function(self.bind_method(info, m, obj), CallArgs([self.mk_str(name), val]), node)
                     return
+            self.st.ghost.setdefault("$attr_writes", []).append((obj, name))      # for frame clauses of contracts
             self.st.put(obj, name, val)
             return
         if k == "type":
